@@ -23,6 +23,7 @@ import (
 	"github.com/tokenized/bitcoin_reader/headers"
 	"github.com/tokenized/logger"
 	"github.com/tokenized/pkg/bitcoin"
+	"github.com/tokenized/pkg/merkle_proof"
 	"github.com/tokenized/pkg/storage"
 	"github.com/tokenized/pkg/wire"
 )
@@ -75,6 +76,7 @@ type hdrOpts struct {
 	RealClean bool // use the exported Clean/Load (prune depth 10000) instead of the hooks
 	Probe     bool // C19 probe: at a seed-chosen step, submit each peer chain's reply and stop
 	ProbeEnd  bool // C19 probe after the last step
+	Proofs    bool // C18: verify merkle proofs into every pool block after every operation
 	Seed      int64
 }
 
@@ -194,6 +196,11 @@ func (w *hdrWorld) headersOf(b int) []*wire.BlockHeader {
 		h.MerkleRoot[0] = byte(b)
 		h.MerkleRoot[1] = byte(i)
 		h.MerkleRoot[2] = byte(i >> 8)
+		if i == 0 && w.o.Proofs {
+			// the first header of the run commits to a small real transaction set (C18)
+			_, root := merklePath(w.proofIDs(b), 0)
+			h.MerkleRoot = root
+		}
 		hs = append(hs, h)
 		prev = *h.BlockHash()
 		w.idOf[prev] = [2]int{b, i}
@@ -827,6 +834,10 @@ func (w *hdrWorld) observe(step int, op hdrOp, prev *hdrExp) {
 		}
 	}
 
+	if w.o.Proofs {
+		w.observeProofs(step, op)
+	}
+
 	// ---- C11/C17: the invalid list as stored
 	if op.Op == "save" || op.Op == "load" {
 		w.cmp("C17")
@@ -835,6 +846,84 @@ func (w *hdrWorld) observe(step int, op hdrOp, prev *hdrExp) {
 			w.fail("C11", step, op, "invalid list unreadable: "+err.Error())
 		} else if fmt.Sprint(got) != fmt.Sprint(exp.Invalid) && !(len(got) == 0 && len(exp.Invalid) == 0) {
 			w.fail("C17", step, op, fmt.Sprintf("stored invalid list got %v want %v", got, exp.Invalid))
+		}
+	}
+}
+
+// proofIDs is the transaction set the first header of block b's run commits to.
+func (w *hdrWorld) proofIDs(b int) []bitcoin.Hash32 {
+	n := b%6 + 1
+	var ids []bitcoin.Hash32
+	for i := 0; i < n; i++ {
+		ids = append(ids, *bvTx(1 + (b+i)%15).TxHash())
+	}
+	return ids
+}
+
+// observeProofs (C18): a valid proof into the first header of every pool block, given with the header or
+// with the block hash only, and the same proof with an altered txid.
+func (w *hdrWorld) observeProofs(step int, op hdrOp) {
+	exp := op.Exp
+	S := w.o.S
+	height := w.repo.Height()
+	for b := 1; b <= len(w.beh.Parent); b++ {
+		ids := w.proofIDs(b)
+		pos := (step + b) % len(ids)
+		path, _ := merklePath(ids, pos)
+		hdr := w.headersOf(b)[0]
+		hash := *hdr.BlockHash()
+		wantHt := (w.heightOf(b)-1)*S + 1
+		onReported := false
+		if wantHt <= height {
+			if rh, err := w.repo.Hash(w.ctx, wantHt); err == nil && rh.Equal(&hash) {
+				onReported = true
+			}
+		}
+		known := inSet(exp.Acc, b)
+		unsure := inSet(exp.Unsure, b)
+		ever := inSet(exp.Ever, b)
+		for _, form := range []string{"header", "hash"} {
+			for _, alter := range []bool{false, true} {
+				txid := ids[pos]
+				if alter {
+					txid[5] ^= 0x40
+				}
+				p := &merkle_proof.MerkleProof{Index: pos, TxID: &txid, Path: append([]bitcoin.Hash32{}, path...)}
+				if form == "header" {
+					h := *hdr
+					p.BlockHeader = &h
+				} else {
+					h := hash
+					p.BlockHash = &h
+				}
+				ht, best, err := w.repo.VerifyMerkleProof(w.ctx, p)
+				w.cmp("C18")
+				what := fmt.Sprintf("proof into block %d (%s form%s)", b, form, map[bool]string{true: ", altered txid", false: ""}[alter])
+				switch {
+				case alter:
+					if err == nil {
+						w.fail("C18", step, op, what+" verified")
+					}
+				case known && !unsure:
+					if err != nil {
+						w.fail("C18", step, op, fmt.Sprintf("%s refused: %s", what, hdrClassify(err)))
+					} else if ht != wantHt || best != onReported {
+						w.fail("C18", step, op, fmt.Sprintf("%s verified with height %d best %v, want %d %v", what, ht, best, wantHt, onReported))
+					}
+				case known && unsure:
+					if err == nil && (ht != wantHt || best != onReported) {
+						w.fail("C18", step, op, fmt.Sprintf("%s verified with height %d best %v, want %d %v or a refusal", what, ht, best, wantHt, onReported))
+					}
+				case !ever:
+					if err == nil {
+						w.fail("C18", step, op, what+" verified although the header was never accepted")
+					}
+				default: // removed by an invalid mark
+					if err == nil && best {
+						w.fail("C18+C17", step, op, what+" reports a header excluded by an invalid mark as in the most-work chain")
+					}
+				}
+			}
 		}
 	}
 }
@@ -1069,6 +1158,7 @@ func hdrMain(args []string) int {
 	fs.BoolVar(&o.RealClean, "realclean", false, "use exported Clean/Load (prune depth 10000)")
 	fs.BoolVar(&o.Probe, "probe", false, "C19 locator probe at a seed-chosen step")
 	fs.BoolVar(&o.ProbeEnd, "probeend", false, "C19 locator probe after the last step")
+	fs.BoolVar(&o.Proofs, "proofs", false, "C18: merkle proofs into every pool block after every operation")
 	fs.Int64Var(&o.Seed, "seed", 1, "seed")
 	workers := fs.Int("workers", 16, "parallel workers")
 	in := fs.String("in", "", "behaviour file (jsonl); stdin if empty")
